@@ -11,6 +11,7 @@ import (
 	"path/filepath"
 	"runtime"
 	"strings"
+	"sync/atomic"
 	"time"
 
 	"github.com/graphql-go/graphql/language/ast"
@@ -249,6 +250,11 @@ func runCase(c *Case) ([]F, map[string]interface{}) {
 			continue
 		}
 		clash := aliasClash(doc)
+		if xerr != nil && atomic.LoadInt32(&g.NonNullNil) != 0 && strings.Contains(xerr.Error(), "is marked non-nullable but returned a null value") {
+			// the one legitimate execution error: a resolver broke its own NonNullable promise
+			obs["nonnullable-nil-rejected"] = true
+			continue
+		}
 		if xerr != nil {
 			sig := "validated-query-errors"
 			if crossSpread && (strings.Contains(xerr.Error(), "zero Value argument") || strings.Contains(xerr.Error(), "args")) {
@@ -393,7 +399,7 @@ func main() {
 			}
 		}
 		for k := range res.Obs {
-			if strings.HasPrefix(k, "ill:") || k == "cross-type-spread" {
+			if strings.HasPrefix(k, "ill:") || k == "cross-type-spread" || k == "nonnullable-nil-rejected" {
 				run.Hist(k)
 			}
 		}
